@@ -155,7 +155,9 @@ func (p *FloatingIPPlugin) keyOwnedByRunningPod(keyObj *util.KeyObj, podUid stri
 		return true
 	}
 	for _, ipInfo := range ipInfos {
-		if ipInfo == nil || ipInfo.PodUid == podUid {
+		if ipInfo == nil || ipInfo.PodUid == podUid || ipInfo.PodUid == "" {
+			// an ip without uid is reserved for the key but not bound to a pod, e.g. its uid has been cleared while
+			// the update of another ip of the key failed
 			continue
 		}
 		if running, _ := p.podRunning(keyObj.PodName, keyObj.Namespace, ipInfo.PodUid); running {
